@@ -152,7 +152,7 @@ class C13(Check):
                                       "chains": st.lists(st.integers(0, 5), min_size=1, max_size=4), "seed": st.integers(0, 99), "shared": st.booleans()})
         return st.fixed_dictionaries({"arch": spec, "mode": st.sampled_from(["threads", "threads", "threads", "process", "sequential"]),
                                       "damage": st.one_of(st.none(), st.none(), st.integers(0, 3)), "out": st.sampled_from(["factory", "factory", "path"]),
-                                      "chunk": st.sampled_from([48, 100, 200]), "sched": st.lists(st.integers(0, 3), max_size=40),
+                                      "chunk": st.sampled_from([48, 100, 200]), "sched": st.one_of(st.lists(st.integers(0, 3), max_size=40), st.lists(st.integers(0, 3), max_size=40), st.just("free")),
                                       "concurrent_objects": st.sampled_from([1, 1, 1, 3]),
                                       "targets": st.one_of(st.none(), st.none(), st.lists(st.integers(0, 11), min_size=1, max_size=4, unique=True))})
 
@@ -166,6 +166,13 @@ class C13(Check):
                 k += 1
                 if env.mine(k):
                     yield {"op": "dups", "names": names, "out": outk}
+        big = {"folders": [[3000, 3000, 3000], [3000, 3000, 3000], [3000, 3000, 3000]], "chains": [0, 1], "seed": 9}
+        for rep in range(3):
+            for outk in ("path", "factory"):
+                k += 1
+                if env.mine(k):
+                    yield {"arch": dict(big, seed=9 + rep), "mode": "threads", "damage": None, "out": outk, "chunk": 100, "sched": "free", "concurrent_objects": 1,
+                           "targets": [1, 2, 4, 5, 7, 8]}
         # small cases explored depth-first over all schedules
         shapes = [{"folders": [[60, 30], [50]], "chains": [0], "seed": 1}, {"folders": [[100], [100]], "chains": [0, 1], "seed": 2},
                   {"folders": [[40], [40], [40]], "chains": [0, 2, 1], "seed": 3}, {"folders": [[90, 10], [20, 70]], "chains": [1, 0], "seed": 4}]
@@ -199,6 +206,18 @@ class C13(Check):
                     i += 1
                     if env.mine(i):
                         yield {"arch": sp, "mode": "threads", "damage": None, "out": "path", "chunk": 64, "sched": "dfs", "concurrent_objects": 1}
+                # free-running workers, selections in which an unwanted member precedes a wanted one in several folders
+                if dmg is None and all(len(f) >= 2 for f in sp["folders"]):
+                    nm0 = 0
+                    second = []
+                    for f in sp["folders"]:
+                        second.append(nm0 + 1)
+                        nm0 += len(f)
+                    for outk in ("path", "factory"):
+                        i += 1
+                        if env.mine(i):
+                            yield {"arch": dict(sp, seed=sp["seed"] + 50), "mode": "threads", "damage": None, "out": outk, "chunk": 200, "sched": "free",
+                                   "concurrent_objects": 1, "targets": second}
                 # integrity test instead of extraction, with ordinary and very long member names (a worker's error carries the name)
                 for mode in ("threads", "process", "sequential"):
                     for ln in (0, 30000):
@@ -337,7 +356,7 @@ class C13(Check):
         apath = os.path.join(work, "a.7z")
         with open(apath, "wb") as f:
             f.write(D)
-        out.descriptor = (repr(case["arch"]), dmg, mode, outk, case["chunk"], "dfs" if case["sched"] == "dfs" else tuple(case["sched"]), case["concurrent_objects"],
+        out.descriptor = (repr(case["arch"]), dmg, mode, outk, case["chunk"], case["sched"] if isinstance(case["sched"], str) else tuple(case["sched"]), case["concurrent_objects"],
                           tuple(T) if T else None)
         out.label("mode:" + mode, "out:" + outk, "damage:" + ("none" if dmg is None else ("first" if dmg == 0 else ("last" if dmg == nf - 1 else "middle"))),
                   "folders=%d" % nf)
@@ -355,6 +374,15 @@ class C13(Check):
                 if op == "testzip":
                     self._run_testzip(apath, D, build(case["arch"])[1], folder_of, dmg, mode, out, sig)
                     nsched = 1
+                elif mode == "threads" and case["sched"] == "free":
+                    # no gates at all: the workers run as the interpreter schedules them, several times over (races inside
+                    # regions the harness cannot see - decoding into a null sink, shared bookkeeping - only show up like this)
+                    for rep in range(8):
+                        self._run_plain(apath, D, model, folder_of, dmg, mode, outk, os.path.join(work, "r%d" % rep), out, sig, T)
+                        nsched += 1
+                        if out.violations:
+                            break
+                    switched = True
                 elif mode == "threads":
                     schedule = [] if case["sched"] == "dfs" else list(case["sched"])
                     cap = 250 if env.quick else 1500
